@@ -91,6 +91,11 @@ func (sp *SAMLServiceProvider) validateLogoutResponseAttributes(response *types.
 func xmlUnmarshalElement(el *etree.Element, obj interface{}) error {
 	doc := etree.NewDocument()
 	doc.SetRoot(el)
+	// Escape '>', CR and attribute whitespace so that values survive re-parsing unchanged
+	doc.WriteSettings = etree.WriteSettings{
+		CanonicalAttrVal: true,
+		CanonicalText:    true,
+	}
 	data, err := doc.WriteToBytes()
 	if err != nil {
 		return err
